@@ -49,6 +49,11 @@ type Ctor struct {
 	GroupParams []*Group
 	Results     []*Result
 	ErrorType   ErrorType
+
+	// Ref, if set, identifies the registration this Ctor stands for. The
+	// same function can be provided to several scopes: those Ctors share
+	// their ID but not their Ref.
+	Ref interface{}
 }
 
 // removeParam deletes the dependency on the provided result's nodeKey.
@@ -126,6 +131,7 @@ func (g *Group) removeResult(r *Result) {
 type Graph struct {
 	Ctors   []*Ctor
 	ctorMap map[CtorID]*Ctor
+	refMap  map[interface{}]*Ctor
 
 	Groups   []*Group
 	groupMap map[nodeKey]*Group
@@ -150,6 +156,11 @@ type FailedNodes struct {
 	// traversed for errors.
 	ctors map[CtorID]struct{}
 
+	// failedCtors is the collection of the constructors themselves that
+	// failed. Constructors that stand for different registrations of the
+	// same function share an ID, but only the one that failed is in here.
+	failedCtors map[*Ctor]struct{}
+
 	// Groups is a collection of failed groupKeys that is populated as the graph is traversed
 	// for errors.
 	groups map[nodeKey]struct{}
@@ -159,11 +170,13 @@ type FailedNodes struct {
 func NewGraph() *Graph {
 	return &Graph{
 		ctorMap:   make(map[CtorID]*Ctor),
+		refMap:    make(map[interface{}]*Ctor),
 		groupMap:  make(map[nodeKey]*Group),
 		consumers: make(map[nodeKey][]*Ctor),
 		Failed: &FailedNodes{
-			ctors:  make(map[CtorID]struct{}),
-			groups: make(map[nodeKey]struct{}),
+			ctors:       make(map[CtorID]struct{}),
+			failedCtors: make(map[*Ctor]struct{}),
+			groups:      make(map[nodeKey]struct{}),
 		},
 	}
 }
@@ -218,6 +231,21 @@ func (dg *Graph) AddCtor(c *Ctor, paramList []*Param, resultList []*Result) {
 
 	dg.Ctors = append(dg.Ctors, c)
 	dg.ctorMap[c.ID] = c
+	if c.Ref != nil {
+		dg.refMap[c.Ref] = c
+	}
+}
+
+// ctorFor returns the constructor a failure is about: the one that stands for
+// ref if a ref is given (none if ref is not a constructor of this graph, a
+// decorator for example), the one with the given ID otherwise.
+func (dg *Graph) ctorFor(id CtorID, ref interface{}) (*Ctor, bool) {
+	if ref != nil {
+		c, ok := dg.refMap[ref]
+		return c, ok
+	}
+	c, ok := dg.ctorMap[id]
+	return c, ok
 }
 
 func (dg *Graph) failNode(r *Result, isRootCause bool) {
@@ -241,6 +269,13 @@ func (dg *Graph) AddMissingNodes(results []*Result) {
 // FailNodes adds results to the list of failed Results in the graph, and
 // updates the state of the constructor with the given id accordingly.
 func (dg *Graph) FailNodes(results []*Result, id CtorID) {
+	dg.FailNodesOf(results, id, nil)
+}
+
+// FailNodesOf is FailNodes for the constructor that stands for the
+// registration ref (see Ctor.Ref). With a nil ref the constructor is found by
+// its ID.
+func (dg *Graph) FailNodesOf(results []*Result, id CtorID, ref interface{}) {
 	// This failure is the root cause if there are no other failures.
 	isRootCause := len(dg.Failed.RootCauses) == 0
 	dg.Failed.ctors[id] = struct{}{}
@@ -249,7 +284,8 @@ func (dg *Graph) FailNodes(results []*Result, id CtorID) {
 		dg.failNode(r, isRootCause)
 	}
 
-	if c, ok := dg.ctorMap[id]; ok {
+	if c, ok := dg.ctorFor(id, ref); ok {
+		dg.Failed.failedCtors[c] = struct{}{}
 		if isRootCause {
 			c.ErrorType = rootCause
 		} else {
@@ -262,6 +298,13 @@ func (dg *Graph) FailNodes(results []*Result, id CtorID) {
 // Results in the graph, and updates the state of the group and constructor
 // with the given id accordingly.
 func (dg *Graph) FailGroupNodes(name string, t reflect.Type, id CtorID) {
+	dg.FailGroupNodesOf(name, t, id, nil)
+}
+
+// FailGroupNodesOf is FailGroupNodes for the constructor that stands for the
+// registration ref (see Ctor.Ref). With a nil ref the constructor is found by
+// its ID.
+func (dg *Graph) FailGroupNodesOf(name string, t reflect.Type, id CtorID, ref interface{}) {
 	// This failure is the root cause if there are no other failures.
 	isRootCause := len(dg.Failed.RootCauses) == 0
 
@@ -269,28 +312,28 @@ func (dg *Graph) FailGroupNodes(name string, t reflect.Type, id CtorID) {
 	group := dg.getGroup(k)
 
 	// If the ctor does not exist it cannot be failed.
-	if _, ok := dg.ctorMap[id]; !ok {
+	c, ok := dg.ctorFor(id, ref)
+	if !ok {
 		return
 	}
 
 	// Track which constructors and groups have failed.
 	dg.Failed.ctors[id] = struct{}{}
+	dg.Failed.failedCtors[c] = struct{}{}
 	dg.Failed.groups[k] = struct{}{}
 
-	for _, r := range dg.ctorMap[id].Results {
+	for _, r := range c.Results {
 		if r.Type == t && r.Group == name {
 			dg.failNode(r, isRootCause)
 		}
 	}
 
-	if c, ok := dg.ctorMap[id]; ok {
-		if isRootCause {
-			group.ErrorType = rootCause
-			c.ErrorType = rootCause
-		} else {
-			group.ErrorType = transitiveFailure
-			c.ErrorType = transitiveFailure
-		}
+	if isRootCause {
+		group.ErrorType = rootCause
+		c.ErrorType = rootCause
+	} else {
+		group.ErrorType = transitiveFailure
+		c.ErrorType = transitiveFailure
 	}
 }
 
@@ -319,22 +362,20 @@ func (dg *Graph) addToGroup(r *Result, id CtorID) {
 // Removing elements that do not have failing results makes the graph easier to debug,
 // since non-failing nodes and edges can clutter the graph and don't help the user debug.
 func (dg *Graph) PruneSuccess() {
-	dg.pruneCtors(dg.Failed.ctors)
+	dg.pruneCtors(dg.Failed.failedCtors)
 	dg.pruneGroups(dg.Failed.groups)
 }
 
 // pruneCtors removes constructors from the graph that do not have failing Results.
-func (dg *Graph) pruneCtors(failed map[CtorID]struct{}) {
+func (dg *Graph) pruneCtors(failed map[*Ctor]struct{}) {
 	// Results of failed constructors and missing types stay in the graph.
 	// A constructor in another scope may produce a result with the same
 	// key: pruning that constructor must not remove the edges to the node
 	// that stays.
 	kept := make(map[nodeKey]struct{})
-	for _, c := range dg.Ctors {
-		if _, ok := failed[c.ID]; ok {
-			for _, r := range c.Results {
-				kept[r.nodeKey()] = struct{}{}
-			}
+	for c := range failed {
+		for _, r := range c.Results {
+			kept[r.nodeKey()] = struct{}{}
 		}
 	}
 	for _, r := range dg.Failed.RootCauses {
@@ -346,7 +387,7 @@ func (dg *Graph) pruneCtors(failed map[CtorID]struct{}) {
 
 	var pruned []*Ctor
 	for _, c := range dg.Ctors {
-		if _, ok := failed[c.ID]; ok {
+		if _, ok := failed[c]; ok {
 			pruned = append(pruned, c)
 			continue
 		}
@@ -354,7 +395,18 @@ func (dg *Graph) pruneCtors(failed map[CtorID]struct{}) {
 		// be removed from that result's Group and/or consuming constructor.
 		dg.pruneCtorParams(c, dg.consumers, kept)
 		dg.pruneGroupResults(c, dg.groupMap)
-		delete(dg.ctorMap, c.ID)
+		if dg.ctorMap[c.ID] == c {
+			delete(dg.ctorMap, c.ID)
+		}
+		if c.Ref != nil {
+			delete(dg.refMap, c.Ref)
+		}
+	}
+	// The constructors that stay are found by their ID.
+	for _, c := range pruned {
+		if _, ok := dg.ctorMap[c.ID]; !ok {
+			dg.ctorMap[c.ID] = c
+		}
 	}
 
 	dg.Ctors = pruned
